@@ -118,10 +118,14 @@ ObsRet(h, t, op, c) ==
       h6 == Viol(h5, K(op) = "try_sync" /\ c = 3, "C09:value")
       \* C15: a call on a panicked object fails loudly, without running anything
       h7 == Viol(h6, op \in h.loud /\ ~(c = 2 /\ h.scnt[op] = 0), "C15:not-loud")
+      \* C15: a call fails with a panic only if an operation of its own object panicked (its own closure included); operations whose
+      \* closure makes calls of its own are left out (a nested call on a panicked object panics the closure around it)
+      h7b == Viol(h7, c = 2 /\ IsOrdered(op) /\ ~OpTab[op].panic /\ OpTab[op].body = << >>
+                      /\ ~(\E a \in h.panicked : O(a) = O(op)) /\ ~(\E a \in Ops : O(a) = O(op) /\ OpTab[a].body # << >>), "C15:healthy-poisoned")
       \* a caller that observed the panic of its own closure: the panic has finished unwinding
       h8 == IF c = 2 /\ (\E x \in h.panicOn : x[2] = t)
-            THEN [h7 EXCEPT !.pdone = @ \cup {O(a[1]) : a \in {x \in h.panicOn : x[2] = t}}, !.atRisk = @ \cup Unfinished(h)]
-            ELSE h7
+            THEN [h7b EXCEPT !.pdone = @ \cup {O(a[1]) : a \in {x \in h.panicOn : x[2] = t}}, !.atRisk = @ \cup Unfinished(h)]
+            ELSE h7b
       \* C17: after despawn returned the pool is within its maximum
       h9 == IF K(op) = "despawn" THEN Viol([h8 EXCEPT !.lowering = FALSE], h8.live > h8.maxNow, "C17:despawn") ELSE h8
       \* C05: drop returned => the value was freed exactly once
